@@ -588,7 +588,70 @@ static void op_hist(int argc, char** a)
 	free(list);
 }
 
+
+/* ---------- C02 ---------- */
+/* pw <type 0|1> <dims> <pwr bits> <cfg> <gen> <seed> <span> [r]: point-wise relative round trip.
+ * generators: 0 positive smooth, 1 mixed-sign smooth, 2 random magnitudes 2^[-span,span] with random signs, 3 = 2 with 10% exact zeros,
+ *             4 all negative, 5 smooth positive with one exact zero, 6 zeros except one value, 7 denormal magnitudes, 8 blocks of zeros
+ *             and of mixed-sign values, 9 values within a few ulps of each other (tiny relative differences)
+ * oracle: |x' - x| <= r*|x| (evaluated exactly: long double), exact zeros stay exact zeros, no element changes sign */
+static void op_pw(int argc, char** a)
+{
+	int ty = (int)hx(a[0]); size_t r[5]; parse_dims(a[1], r); double pwr = dbl_of_bits(a[2]);
+	if (init_from_cfg(a[3]) != SZ_SCES) { printf("st=init-failed\n"); return; }
+	int gen = atoi(a[4]); uint64_t s = hx(a[5]) * 2654435761ULL + 99991; int span = atoi(a[6]);
+	size_t n = computeDataLength(r[0], r[1], r[2], r[3], r[4]); int es = elem_size(ty);
+	void* data = malloc(n * (size_t)es + 8);
+	for (size_t i = 0; i < n; i++) {
+		double v, u = urand(&s);
+		switch (gen) {
+		case 0: v = sin((double)i * 0.05) + 0.3 * sin((double)i * 0.31) + 3.0; break;
+		case 1: v = sin((double)i * 0.05 + 0.5) + 0.3 * sin((double)i * 0.31); break;
+		case 2: v = (urand(&s) < 0.5 ? -1.0 : 1.0) * ldexp(1.0 + u, (int)(urand(&s) * 2 * span) - span); break;
+		case 3: v = urand(&s) < 0.1 ? 0.0 : (urand(&s) < 0.5 ? -1.0 : 1.0) * ldexp(1.0 + u, (int)(urand(&s) * 2 * span) - span); break;
+		case 4: v = -ldexp(1.0 + u, (int)(urand(&s) * 2 * span) - span); break;
+		case 5: v = (i == n / 2) ? 0.0 : sin((double)i * 0.05) + 3.0; break;
+		case 6: v = (i == n / 3) ? 2.5 : 0.0; break;
+		case 7: v = (urand(&s) < 0.5 ? -1.0 : 1.0) * ldexp(1.0 + u, ty == SZ_FLOAT ? -(127 + (int)(urand(&s) * 20)) : -(1023 + (int)(urand(&s) * 45))); break;
+		case 8: v = ((i / 23) % 3 == 0) ? 0.0 : ((i / 23) % 3 == 1 ? sin((double)i * 0.3) : 5.0 + u); break;
+		default: v = 1.0 + (double)(lcg(&s) % 7) * (ty == SZ_FLOAT ? 1.1920929e-7 : 2.220446049250313e-16); break;
+		}
+		if (ty == SZ_FLOAT) { float f = (float)v; memcpy((char*)data + i * 4, &f, 4); } else memcpy((char*)data + i * 8, &v, 8);
+	}
+	void* copy = malloc(n * (size_t)es + 8); memcpy(copy, data, n * (size_t)es);
+	size_t outSize = 0;
+	unsigned char* bytes = SZ_compress_args(ty, data, &outSize, PW_REL, 0.0, 0.0, pwr, r[0], r[1], r[2], r[3], r[4]);
+	int input_modified = memcmp(copy, data, n * (size_t)es) != 0;
+	if (!bytes) { printf("st=null\n"); free(data); free(copy); return; }
+	int lc = outSize >= 4 ? is_lossless_compressed_data(bytes, outSize) : -1;
+	printf("out=%zx lc=%d ", outSize, lc); fflush(R);
+	void* dec = SZ_decompress(ty, bytes, outSize, r[0], r[1], r[2], r[3], r[4]);
+	if (!dec) { printf("st=dec-null\n"); free(bytes); free(data); free(copy); return; }
+	size_t viol = 0, first = 0, zbad = 0, sbad = 0, nanbad = 0; long double maxrel = 0; uint64_t fx = 0, fd = 0;
+	for (size_t i = 0; i < n; i++) {
+		long double x, y; uint64_t xb = 0, yb = 0;
+		if (ty == SZ_FLOAT) { float p = ((float*)copy)[i], q = ((float*)dec)[i]; x = p; y = q; memcpy(&xb, &p, 4); memcpy(&yb, &q, 4); }
+		else { double p = ((double*)copy)[i], q = ((double*)dec)[i]; x = p; y = q; memcpy(&xb, &p, 8); memcpy(&yb, &q, 8); }
+		int bad = 0;
+		if (y != y) { nanbad++; bad = 1; }
+		else if (x == 0) { if (y != 0) { zbad++; bad = 1; } }
+		else {
+			if ((x < 0) != (y < 0) && y != 0) { sbad++; bad = 1; }
+			long double d = x > y ? x - y : y - x, ax = x < 0 ? -x : x;
+			if (d > (long double)pwr * ax) bad = 1;
+			if (d / ax > maxrel) maxrel = d / ax;
+		}
+		if (bad) { if (!viol) { first = i; fx = xb; fd = yb; } viol++; }
+	}
+	/* the stream's flag byte (after unwrapping): 0x08 = accelerated (MSST19) path */
+	unsigned char flag = 0; { unsigned char* inner = bytes; unsigned char* unw = NULL; if (lc != -1 && n > 20) { sz_lossless_decompress(lc, bytes, outSize, &unw, n * (size_t)es + 200000); inner = unw; } if (n > 20 && inner) flag = inner[3]; if (unw) free(unw); }
+	double mr = (double)maxrel;
+	printf("st=ok n=%zx viol=%zx first=%zx x=%" PRIx64 " y=%" PRIx64 " zbad=%zx sbad=%zx nan=%zx maxrel=%" PRIx64 " flag=%x inmod=%d", n, viol, first, fx, fd, zbad, sbad, nanbad, bits_of_dbl(mr), flag, input_modified);
+	{ uint64_t h = 1469598103934665603ULL; for (size_t i = 0; i < n * (size_t)es; i++) { h ^= ((unsigned char*)dec)[i]; h *= 1099511628211ULL; } printf(" dig=%" PRIx64 "\n", h); }
+	free(bytes); free(dec); free(data); free(copy);
+}
+
 struct op more_ops[] = {
-	{"rt", op_rt}, {"rtr", op_rtr}, {"fdim", op_fdim}, {"huff", op_huff}, {"rw", op_rw}, {"tr", op_tr}, {"lz", op_lz}, {"conf", op_conf}, {"meta", op_meta}, {"hist", op_hist}, {"sniff", op_sniff}, {"ep", op_ep},
+	{"rt", op_rt}, {"rtr", op_rtr}, {"fdim", op_fdim}, {"huff", op_huff}, {"rw", op_rw}, {"tr", op_tr}, {"lz", op_lz}, {"conf", op_conf}, {"meta", op_meta}, {"hist", op_hist}, {"pw", op_pw}, {"sniff", op_sniff}, {"ep", op_ep},
 	{NULL, NULL}
 };
